@@ -59,6 +59,19 @@ add("C16", "exploration",
     "one local file system with symlink support; forked children of a pristine interpreter stand for fresh processes",
     "runtime monitoring: cross-process value + execution-log monitor over store configurations", "E4-store")
 
+add("C01", "exploration",
+    "Differential runtime monitor: every generated pipeline history (edit matrix of dependency kind x position x process mode x entry style, random DAG programs with 6-10 step histories, code in packages / __main__ script / IPython cells, stores local / local+cache / memory / noop) is run by the real dds in forked fresh processes and by a dds-free reference on the same files; oracle = every returned value equals the reference, no rejection of a supported program. Held on the histories observed.",
+    "supported subset of DESIGN.md 3.1; reference = same files with `dds` bound to a stub that just calls the functions",
+    "runtime monitoring: differential value monitor (real dds vs dds-free reference run) over generated edit histories", "E1-pipeline")
+add("C02", "exploration",
+    "Execution-log + signature monitor: generated code logs every function body that runs, a wrapping Store records the path->signature map of each evaluation; oracle = a kept node whose dependency-cone fingerprint (DESIGN.md 4.1, from generator ground truth) was evaluated before against the same store neither executes nor changes signature - over zero-edit transitions (restart, unrelated additions, reordering, non-accepted edits, relocation, entry-style switch), every single edit of the matrix, and random histories. Held on the histories observed.",
+    "cone definition of DESIGN.md 4.1; memory store only within a process; noop excluded",
+    "runtime monitoring: execution-log and Store.sync_paths monitor with dependency-cone fingerprint oracle", "E1-pipeline")
+add("C04", "exploration",
+    "Path monitor: after every evaluation of generated histories every path kept so far is loaded in the evaluating process and in a fresh process and, for str results, read from <data_dir>/<path>; oracle = model path->value fed by the reference run (only paths the evaluation kept are updated). Stores memory, local, local+cache, DBFS(fake); paths of 1-4 segments with shared directories and ambiguous names. Held on the histories observed.",
+    "fake dbutils for DBFS; memory store within one process",
+    "runtime monitoring: post-evaluation load monitor (same + fresh process, raw file) against a path model", "E1-pipeline")
+
 NOT_YET = {}
 
 
